@@ -99,8 +99,10 @@ theorem bw_tracks : ∀ (pt : PT) (σ : Scope) (cm : List (Chan × Option Chan))
   | .forLoop .., _, _ => by rw [buildWaveform]; exact tracks_error (by simp) _
   | .mapping id body pm mm' cm' cons, σ, cm => by
       have hS : SubSc CV := subSc_cv
-      rw [buildWaveform, mapParameterValues_eq, visibleA, visOutcome_append, visOutcome_append, visOutcome_consVis]
+      rw [buildWaveform, mapParameterValues_eq, visibleA, visOutcome_append, visOutcome_append, visOutcome_append,
+        visOutcome_consVis, visOutcome_keyVis]
       simp only [bind_assoc]
+      refine tracks_bind (tracks_self _) (fun _ _ => ?_)
       refine tracks_bind (tracks_self _) (fun _ _ => ?_)
       cases hm : mapValues pm σ with
       | error e =>
@@ -225,19 +227,21 @@ theorem int_tracks : ∀ (pt : PT) (σ : Scope) (mm : List (MName × Option MNam
       simp only [bind_assoc, bind_unit_ok]
       refine tracks_bind (tracks_self _) (fun _ _ => ?_)
       refine tracks_need (fun a ha => ?_)
+      simp only [intOrErr]
       cases hna : checkedInt a with
       | none => simp only [error_bind]; exact tracks_error (by simp) _
       | some na =>
-        simp only [pure_eq_ok, ok_bind]
+        simp only [ok_bind]
         refine tracks_need (fun b hb => ?_)
         cases hnb : checkedInt b with
         | none => simp only [error_bind]; exact tracks_error (by simp) _
         | some nb =>
+          simp only [ok_bind]
           refine tracks_need (fun s hs => ?_)
           cases hns : checkedInt s with
           | none => simp only [error_bind]; exact tracks_error (by simp) _
           | some ns =>
-            simp only [ha, hb, hs, hna, hnb, hns]
+            simp only [ok_bind, ha, hb, hs, hna, hnb, hns]
             split
             · exact tracks_error (by simp) _
             · refine tracks_step (getMeas_noCV σ meas mm) (fun ms _ => ?_)
@@ -280,11 +284,74 @@ theorem intl_tracks : ∀ (ps : List PT) (σ : Scope) (mm : List (MName × Optio
 end
 
 theorem mem_visibleConstraints {pt : PT} {σ : Scope} {se : Scope × Expr} :
-    se ∈ visibleConstraints pt σ ↔ ∃ v ∈ visible pt σ, v.isCons = true ∧ (v.scope, v.expr) = se := by
-  unfold visibleConstraints
-  simp only [List.mem_map, List.mem_filter]
+    se ∈ visibleConstraints pt σ ↔
+      ∃ v ∈ visible pt σ, v.key = none ∧ v.isCons = true ∧ (v.scope, v.expr) = se := by
+  unfold visibleConstraints consOf
+  simp only [List.mem_map, List.mem_filter, Vis.isConstraint, Bool.and_eq_true, Option.isNone_iff_eq_none]
   constructor
-  · rintro ⟨v, ⟨hv, hc⟩, rfl⟩; exact ⟨v, hv, hc, rfl⟩
-  · rintro ⟨v, hv, hc, rfl⟩; exact ⟨v, ⟨hv, hc⟩, rfl⟩
+  · rintro ⟨v, ⟨hv, hc, hk⟩, rfl⟩; exact ⟨v, hv, hk, hc, rfl⟩
+  · rintro ⟨v, hv, hk, hc, rfl⟩; exact ⟨v, ⟨hv, hc, hk⟩, rfl⟩
+
+/-! ### the judge entry by entry -/
+
+theorem checkVis_ok_iff (v : Vis) : checkVis v = .ok () ↔ v.Fine := by
+  unfold checkVis Vis.Fine
+  split
+  · unfold presentKey
+    split
+    · rename_i h; simpa using h
+    · rename_i h; simpa using h
+  · constructor
+    · intro h
+      obtain ⟨x, hx, h⟩ := bind_ok.mp h
+      refine ⟨x, hx, fun hc hx0 => ?_⟩
+      simp [hc, hx0] at h
+    · rintro ⟨x, hx, hc⟩
+      rw [hx]
+      simp only [ok_bind]
+      split
+      · rename_i hbad
+        exact absurd hbad.2 (hc hbad.1)
+      · rfl
+
+theorem checkVis_cv_iff (v : Vis) :
+    checkVis v = .error .constraintViolation ↔
+      v.key = none ∧ v.isCons = true ∧ v.scope.eval v.expr = .ok 0 := by
+  unfold checkVis
+  split
+  · rename_i x hk
+    constructor
+    · intro h
+      exact absurd rfl (avoid_iff.mp (presence_noCV [x] v.scope) _ (by
+        unfold presence
+        simp only [List.forM_cons, List.forM_nil, h]
+        rfl))
+    · rintro ⟨h, _⟩
+      rw [h] at hk
+      cases hk
+  · rename_i hk
+    constructor
+    · intro h
+      rcases bind_err.mp h with h | ⟨x, hx, h⟩
+      · exact absurd rfl (avoid_iff.mp (eval_noCV v.scope v.expr) _ h)
+      · split at h
+        · rename_i hc
+          exact ⟨hk, hc.1, by rw [hx, hc.2]⟩
+        · cases h
+    · rintro ⟨_, hc, hv⟩
+      rw [hv]
+      simp [hc]
+
+theorem checkVis_noCV_of_not_constraint {v : Vis} (h : v.isConstraint = false) : Avoid CV (checkVis v) := by
+  refine avoid_iff.mpr (fun e he hcv => ?_)
+  cases hcv
+  obtain ⟨hk, hc, _⟩ := (checkVis_cv_iff v).mp he
+  simp [Vis.isConstraint, hk, hc] at h
+
+theorem checkVis_of_constraint {v : Vis} (h : v.isConstraint = true) : checkVis v = checkOne (v.scope, v.expr) := by
+  simp only [Vis.isConstraint, Bool.and_eq_true, Option.isNone_iff_eq_none] at h
+  unfold checkVis checkOne
+  rw [h.2]
+  simp [h.1]
 
 end QP.C03
